@@ -139,6 +139,106 @@ def model_compare_extracted(ctx, toy):
     return None, bad
 
 
+def revert_cases(ctx):
+    """Histories (every batch committed) followed by Revert to a past root, or by one more
+    uncommitted Update and Stash."""
+    rng = ctx.rng
+    n = 60 if ctx.tier == "quick" else 1500
+    cases = []
+    for c in tg.load_corpus(os.path.join(vf.VERIF, "corpus", "C10", "revert")):
+        c.setdefault("hash", "toy")
+        cases.append(c)
+    for i in range(n):
+        c = tg.rand_case(rng, "toy" if i % 3 else "sha", nkeys=rng.choice([2, 3, 4, 6]), nbatches=rng.choice([2, 3, 4, 5]))
+        # values from a small pool so that states recur (A -> B -> A histories)
+        pool = [tg.rand_val(rng) for _ in range(2)]
+        for b in c["batches"]:
+            b["commit"] = True
+            b["v"] = [v if v == tg.DEFAULT else rng.choice(pool) for v in b["v"]]
+        stash = rng.random() < 0.2
+        cases.append({"hash": c["hash"], "batches": c["batches"], "q": c["q"], "stash": stash,
+                      "target": rng.randrange(0, len(c["batches"]) - (1 if stash else 0))})
+    return cases
+
+
+def revert_check(ctx, binp, exe):
+    """Returns (fails, corr)."""
+    cases = revert_cases(ctx)
+    obs = [json.loads(l) for l in tg.run_engine(ctx, binp, "TestVerifTrieRevert", cases, "c10r")]
+    fails, corr = [], None
+    text, idx = [], []
+    stats = {"revert_refused": 0, "reverted": 0, "stash": 0, "older_root_lost": 0, "target_lost": 0}
+    for ci, (c, o) in enumerate(zip(cases, obs)):
+        rep = {"case": c, "obs": {k: o[k] for k in ("revert_err", "readable", "err", "root_after")}}
+        if o.get("cache_limit") != 257 or o.get("live_cache"):
+            fails.append(("livecache", "LoadCache populated liveCache / CacheHeightLimit is not TrieHeight+1", rep))
+        maps = tg.map_after(c)
+        if c.get("stash"):
+            stats["stash"] += 1
+            n = len(c["batches"]) - 1
+            want_root = o["roots"][n - 1] if n else ""
+            exp = [maps[n - 1].get(k, "") for k in c["q"]] if n else ["" for _ in c["q"]]
+            if o["err"] or o["revert_err"] or o["root_after"] != want_root or o["gets_after"] != exp:
+                fails.append(("stash", "Stash did not restore the last committed state", rep))
+            continue
+        if o["err"] and not o["revert_err"] and "get after revert" in o["err"]:
+            stats["target_lost"] += 1
+            fails.append((classify_revert_loss(c, maps), "after Revert the target root is not readable: " + o["err"], rep))
+            continue
+        if o["err"]:
+            fails.append(("error", "trie operation failed: " + o["err"], rep))
+            continue
+        t = c["target"]
+        first = o["roots"].index(o["roots"][t])
+        if o["revert_err"]:
+            stats["revert_refused"] += 1
+            if o["roots"][t] != o["roots"][-1]:
+                fails.append(("revert-refused", "Revert refused a past root: " + o["revert_err"], rep))
+            continue
+        stats["reverted"] += 1
+        exp = [maps[t].get(k, "") for k in c["q"]]
+        if o["root_after"] != o["roots"][t] or o["gets_after"] != exp or o["past_len"] != first + 1:
+            fails.append(("revert-restore", "Revert did not restore the target root / contents / pastTries", rep))
+        if o["readable"][t] != "" or o["fresh_gets"][t] != exp:
+            fails.append((classify_revert_loss(c, maps), "after Revert a fresh instance at the target root fails", rep))
+        for j in range(first):
+            if o["readable"][j] != "" and o["roots"][j] not in o["roots"][first:t + 1]:
+                stats["older_root_lost"] += 1
+                fails.append(("revert-older-root-lost", "Revert made an OLDER past root (still listed in pastTries) unreadable", rep))
+                break
+        if c["hash"] == "toy":
+            text += tg.driver_case_text(c, {"roots": o["roots"], "gets": o["gets"]})
+            text.append("R %d" % t)
+            text.append("E")
+            idx.append((ci, "dels %d %s" % (first, ",".join(o["dels"] or []) or "-")))
+    if exe and text:
+        out = [l for l in tg.run_driver(ctx, exe, "\n".join(text) + "\n") if l.startswith(("dels", "diff", "bdiff"))]
+        got = [l for l in out if l.startswith("dels")]
+        if len(got) != len(idx):
+            corr = ("model driver returned %d revert results for %d cases" % (len(got), len(idx)), [])
+        else:
+            bad = [(ci, want, g) for (ci, want), g in zip(idx, got) if want != g]
+            if bad:
+                corr = ("keys deleted by Revert differ between model and implementation on %d of %d cases" % (len(bad), len(idx)),
+                        [{"case": cases[bad[0][0]], "impl": bad[0][1][:1500], "model": bad[0][2][:1500]}])
+        ctx.cov["revert_cases_compared_with_model"] = len(idx)
+    ctx.cov["revert"] = stats
+    return fails, corr
+
+
+def classify_revert_loss(c, maps):
+    """F21-type alias: the target holds two keys differing only in the last bit and a later trie
+    holds one of them alone with the same value (root shortcut, byte(256) == byte(0))."""
+    t = c["target"]
+    for m in maps[t + 1:]:
+        if len(m) == 1:
+            (k0, v0), = m.items()
+            twin = k0[:-2] + "%02x" % (int(k0[-2:], 16) ^ 1)
+            if maps[t].get(k0) == v0 and twin in maps[t]:
+                return "revert-target-lost-height-byte-wrap"
+    return "revert-target-lost"
+
+
 def parse_all(out):
     import re
     flat = " ".join(out.split())
@@ -242,7 +342,7 @@ def run(ctx):
     # kernel evaluation: corpus + a sample; extracted model: everything
     ksel = [x for x in toy if x[0].get("shape") == "corpus"]
     rest = [x for x in toy if x[0].get("shape") not in ("corpus", "exh")]
-    ksel += rest[:(25 if ctx.tier == "quick" else 200)]
+    ksel += rest[:(12 if ctx.tier == "quick" else 200)]
     err, bad = model_compare(ctx, ksel)
     corr = None
     if err:
@@ -258,6 +358,11 @@ def run(ctx):
         corr = corr or ("extracted model and implementation differ (root or Get) on %d of %d cases" % (len(bad2), len(toy)),
                         [dict(case=slim(toy[i][0]), impl_roots=toy[i][1]["roots"], impl_gets=toy[i][1]["gets"]) for i in bad2[:3]])
     ctx.cov["kernel_evaluated_cases"] = len(ksel)
+    # ---- Revert / Stash / LoadCache
+    exe_r, _ = tg.build_driver(ctx)
+    rfails, rcorr = revert_check(ctx, binp, exe_r)
+    fails += rfails
+    corr = corr or rcorr
     # evidence
     nb = sum(len(c["batches"]) for c in cases)
     ctx.cov["evaluations"] = nb
